@@ -2,15 +2,18 @@
 (* C17 - osmgeojson.Convert maps OSM elements to GeoJSON features exactly; *)
 (*       options only subtract; deterministic; input never modified.       *)
 (*                                                                         *)
-(* Three layers in one file:                                               *)
+(* Layers (this module holds the first two; TLC evaluates constant          *)
+(* definitions eagerly, so the input space lives in GeoJsonSpace.tla and    *)
+(* the step machine in GeoJsonMC.tla, and a Judge process pays for neither):*)
 (*   Model  - Convert transcribed pass by pass (membership map, relation   *)
 (*            pass with the skippable set, way pass, node pass) as pure    *)
-(*            step operators, a step machine that applies them one element *)
-(*            at a time, and the functional composition Conv(ds, O).       *)
+(*            step operators and their functional composition             *)
+(*            ConvV(ds, O, variant); GeoJsonMC.tla applies the same step   *)
+(*            operators as a machine, one element at a time.               *)
 (*   Judge  - J_* operators: the listed statement and nothing more, over   *)
 (*            an abstract feature list (from the Model or recorded from    *)
 (*            the real osmgeojson.Convert).                                *)
-(*   Input  - abstract data sets: structured exhaustive families plus a    *)
+(*   Input  - GeoJsonSpace.tla: structured exhaustive families plus a      *)
 (*            seeded random sample of the full product space.              *)
 (*                                                                         *)
 (* Abstract vocabulary (shared with the Go renderer/recorder, which only   *)
